@@ -45,3 +45,17 @@ func fatal(msg string) {
 func Fatal(v ...interface{})                 { fatal(fmt.Sprint(v...)) }
 func Fatalf(format string, v ...interface{}) { fatal(fmt.Sprintf(format, v...)) }
 func Fatalln(v ...interface{})               { fatal(fmt.Sprint(v...)) }
+
+func Panic(v ...interface{})                 { panic(fmt.Sprint(v...)) }
+func Panicf(format string, v ...interface{}) { panic(fmt.Sprintf(format, v...)) }
+func SetFlags(flag int)                      {}
+func SetPrefix(prefix string)                {}
+func Flags() int                             { return 0 }
+
+const (
+	Ldate         = rlog.Ldate
+	Ltime         = rlog.Ltime
+	Lmicroseconds = rlog.Lmicroseconds
+	Lshortfile    = rlog.Lshortfile
+	LstdFlags     = rlog.LstdFlags
+)
